@@ -175,7 +175,7 @@ Proof. intros HX HY PR Hd Z HZ PZ.
     ((inner n (msub X Y) Z + eps * mtrace n Z) + (inner n (msub X Y) Z + eps * mtrace n Z)
      + ((delta - inner n X (msub X Y)) + (delta - inner n X (msub X Y)))) by ring end.
   pose proof (proj1 (le_sub F _ _) Hd) as H2.
-  repeat apply add_nonneg; assumption. Qed.
+  apply add_nonneg; [apply add_nonneg; exact H1|apply add_nonneg; exact H2]. Qed.
 
 (* the certificate as planned in DESIGN (the feasibility hypothesis PSD(X + eps I) and the lower bound on <X, X-Y>
    are what the harness checks in addition; the inequality itself does not need them) *)
